@@ -547,4 +547,33 @@ def c20_scan(tier, seed):
 
 E('C20', c20_scan)
 
+# ----------------------------------------------------------------------------- C19
+prop('C19', 'other',
+     'Proved for all inputs: sin_angle_aprox(d) and cos_angle_aprox(d) return the table entry of d mod 360 (normalised '
+     'into [0,360]) for every int32 d with the table access in bounds (CBMC); sqrt_aprox is 0 at 0, NaN below 0 and '
+     'finite non-negative above, with its table index in bounds and all shifts valid (CBMC). Decided by native '
+     'enumeration (stand-in, the tabulated functions are transcendental): every one of the 361+361+256+256 table '
+     'entries against its definition (exhaustive in every tier) and sortedness of both tangent halves; '
+     'sin/cos_angle_aprox within 2 ulp (all 2^32 angles in the thorough tier); sqrt_aprox 2% (all raw x in [1,2^37) in '
+     'the thorough tier); atan_index_aprox within 1.25 (bounded: exhaustive for |raw| <= 2^21, thresholds, windows, '
+     'random). atan_index_aprox itself is not under contract: its std::lower_bound over iterators is outside the '
+     'extraction subset (said so; no hand-written look-alike is verified instead).',
+     technique='CBMC contracts (index/bounds/NaN clauses); exhaustive native enumeration of table entries; native stand-ins for accuracy',
+     not_decided=['atan_index_aprox is outside the extraction subset (std::lower_bound/std::next/std::distance over std::array iterators): native stand-in only'],
+     assumptions=['glibc long double libm as the oracle for table entries and accuracy stand-ins'])
+SIN_APROX = '_ZN9fixedmath15sin_angle_aproxEi'
+COS_APROX = '_ZN9fixedmath15cos_angle_aproxEi'
+SQRT_APROX = '_ZN9fixedmath10sqrt_aproxENS_7fixed_tE'
+U('C19', 'c19.sin_aprox', SIN_APROX, 'pre_anyi', 'post_sin_aprox', cxx='fixedmath::sin_angle_aprox($1)', backends=('sat', 'kissat'), timeout=600)
+U('C19', 'c19.cos_aprox', COS_APROX, 'pre_anyi', 'post_cos_aprox', cxx='fixedmath::cos_angle_aprox($1)', backends=('sat', 'kissat'), timeout=600)
+U('C19', 'c19.sqrt_aprox', SQRT_APROX, 'pre_valid1', 'post_sqrt_aprox', cxx='fixedmath::sqrt_aprox($1)', backends=('sat', 'kissat'), timeout=600)
+
+
+def c19_scan(tier, seed):
+    return _native.run_native('c19_tables', 'c19_tables.cc', 'abacus', [seed, 0 if tier == 'quick' else 1], timeout=7200,
+                              label='native enumeration (stand-in, not proved): table entries exhaustive; function accuracy ' + ('bounded' if tier == 'quick' else 'exhaustive where stated'))
+
+
+E('C19', c19_scan)
+
 NOT_APPLICABLE = {}
